@@ -98,3 +98,49 @@ RULE = ("harness/internal/crash/hist.go: 1-3 buckets (fixed 1Min/1H/4H/1D, varia
         "cross-year-unsorted generated on purpose in a quarter of the histories.  One case = one history; EVERY crash "
         "prefix of its system-call trace is explored (<=150 per history in quick).  distinct = distinct history; "
         "non-trivial = more than 20 recorded system calls.")
+
+
+def _build_crashrun_only():
+    """Fallback when `go build ./cmd/...` fails because of ANOTHER property's harness file: the durability
+    checks only need cmd/crashrun (which links internal/crash and the marketstore packages, not props/)."""
+    import os
+    import shutil
+    import sys
+    sys.path.insert(0, os.path.join(os.path.dirname(os.path.dirname(os.path.abspath(__file__))), "lib"))
+    import vk
+    with vk.Lock(os.path.join(vk.HARNESS, ".lock")):
+        os.makedirs(os.path.join(vk.HARNESS, "bin"), exist_ok=True)
+        cmd = ["go", "build", "-tags", "verif", "-o", "bin/", "./cmd/crashrun"]
+        if os.path.realpath(vk.REPO) != "/repo":
+            alt = os.path.join(vk.HARNESS, "alt.mod")
+            gm = os.path.join(vk.HARNESS, "go.mod")
+            open(alt, "w").write(open(gm).read().replace("=> /repo", "=> " + os.path.realpath(vk.REPO)))
+            shutil.copyfile(os.path.join(vk.REPO, "go.sum"), os.path.join(vk.HARNESS, "alt.sum"))
+            cmd = ["go", "build", "-modfile", alt, "-tags", "verif", "-o", "bin/", "./cmd/crashrun"]
+        rc, out, _ = vk.sh(cmd, cwd=vk.HARNESS, env=vk.goenv(), timeout=1500)
+        return rc == 0, out
+
+
+def run_check(spec_, ctx, replay):
+    """vk.standard_check with a harness build that does not depend on the other properties' harness files."""
+    import os
+    import sys
+    sys.path.insert(0, os.path.join(os.path.dirname(os.path.dirname(os.path.abspath(__file__))), "lib"))
+    import vk
+    orig = vk.build_harness
+
+    def build(extra_tags=""):
+        ok, log = orig(extra_tags)
+        if ok:
+            return ok, log
+        ok2, log2 = _build_crashrun_only()
+        if ok2:
+            ctx.notes.append("go build ./cmd/... failed in another property's harness file; built cmd/crashrun alone")
+            return True, log2
+        return False, log + "\n" + log2
+
+    vk.build_harness = build
+    try:
+        return vk.standard_check(spec_, ctx, replay)
+    finally:
+        vk.build_harness = orig
